@@ -68,28 +68,119 @@ theorem updatePrice_fst (P : Position α) (p : α) (t : Int) :
     · exact ⟨P.price, t, rfl⟩
     · exact ⟨p, t, rfl⟩
 
-/-- what `transact` does to the accumulators: nothing for a zero quantity, `transactBuy` for a
-buy, `transactSell` for a sell — in every outcome (error or not) up to `price` and `clock`. -/
-theorem transact_fst (P : Position α) (t : Txn α) :
-    ∃ pr c, (P.transact t).1 =
-      { (if t.qty = 0 then P
-         else if 0 < t.qty then P.transactBuy (ofInt t.qty) t.price t.commission
-         else P.transactSell (ofInt (-t.qty)) t.price t.commission) with price := pr, clock := c } := by
+/-- the two kinds of outcome of `updatePrice`: refused (`ValueError`; at most the clock moved) or
+accepted (clock and price set). -/
+theorem updatePrice_cases (P : Position α) (p : α) (t : Int) :
+    (∃ c, P.updatePrice p t = ({ P with clock := c }, some Err.value)) ∨
+    P.updatePrice p t = ({ P with price := p, clock := t }, none) := by
+  unfold updatePrice
+  split
+  · exact Or.inl ⟨P.clock, rfl⟩
+  · dsimp only
+    split
+    · exact Or.inl ⟨t, rfl⟩
+    · exact Or.inr rfl
+
+/-- The three kinds of outcome of `transact`:
+* a zero quantity is ignored entirely;
+* a refused transaction (the price / time validation of `updatePrice` failed) changes at most the
+  `clock` — the running quantities, averages and commissions are **not** touched (fix F4: validation
+  comes first);
+* an accepted transaction applies `transactBuy` / `transactSell` and sets price and clock. -/
+theorem transact_cases (P : Position α) (t : Txn α) :
+    (t.qty = 0 ∧ P.transact t = (P, none)) ∨
+    (t.qty ≠ 0 ∧ ∃ c, P.transact t = ({ P with clock := c }, some Err.value)) ∨
+    (t.qty ≠ 0 ∧ P.transact t =
+      ({ (if 0 < t.qty then P.transactBuy (ofInt t.qty) t.price t.commission
+          else P.transactSell (ofInt (-t.qty)) t.price t.commission) with
+            price := t.price, clock := t.time }, none)) := by
   unfold transact
   by_cases h0 : t.qty = 0
-  · simp only [h0, if_true]
+  · exact Or.inl ⟨h0, by rw [if_pos h0]⟩
+  · rw [if_neg h0]
+    rcases updatePrice_cases P t.price t.time with ⟨c, hu⟩ | hu
+    · exact Or.inr (Or.inl ⟨h0, c, by rw [hu]⟩)
+    · refine Or.inr (Or.inr ⟨h0, ?_⟩)
+      rw [hu]
+      dsimp only
+      split <;> rfl
+
+/-- a refused `transact` changes at most the clock -/
+theorem transact_refused (P : Position α) (t : Txn α) (e : Err) (h : (P.transact t).2 = some e) :
+    ∃ c, (P.transact t).1 = { P with clock := c } := by
+  rcases transact_cases P t with ⟨_, h1⟩ | ⟨_, c, h1⟩ | ⟨_, h1⟩
+  · rw [h1] at h; cases h
+  · exact ⟨c, by rw [h1]⟩
+  · rw [h1] at h; cases h
+
+/-- an accepted `transact` of a non-zero quantity applies `transactBuy` / `transactSell` and sets price
+and clock to the trade's -/
+theorem transact_accepted (P : Position α) (t : Txn α) (hq : t.qty ≠ 0) (h : (P.transact t).2 = none) :
+    (P.transact t).1 =
+      { (if 0 < t.qty then P.transactBuy (ofInt t.qty) t.price t.commission
+         else P.transactSell (ofInt (-t.qty)) t.price t.commission) with
+           price := t.price, clock := t.time } := by
+  rcases transact_cases P t with ⟨h0, _⟩ | ⟨_, c, h1⟩ | ⟨_, h1⟩
+  · exact absurd h0 hq
+  · rw [h1] at h; cases h
+  · rw [h1]
+
+/-- what `transact` does to the accumulators: nothing for a zero quantity or a refused transaction,
+`transactBuy` for an accepted buy, `transactSell` for an accepted sell — up to `price` and `clock`. -/
+theorem transact_fst (P : Position α) (t : Txn α) :
+    ∃ pr c, (P.transact t).1 =
+      { (if t.qty = 0 ∨ (P.transact t).2 ≠ none then P
+         else if 0 < t.qty then P.transactBuy (ofInt t.qty) t.price t.commission
+         else P.transactSell (ofInt (-t.qty)) t.price t.commission) with price := pr, clock := c } := by
+  rcases transact_cases P t with ⟨h0, h1⟩ | ⟨_, c, h1⟩ | ⟨h0, h1⟩
+  · rw [if_pos (Or.inl h0), h1]
     exact ⟨P.price, P.clock, rfl⟩
-  · simp only [h0, if_false]
-    generalize (if 0 < t.qty then P.transactBuy (ofInt t.qty) t.price t.commission
-      else P.transactSell (ofInt (-t.qty)) t.price t.commission) = Q
-    obtain ⟨pr, c, h⟩ := updatePrice_fst Q t.price t.time
-    rcases hu : Q.updatePrice t.price t.time with ⟨Q2, _ | e⟩
-    · rw [hu] at h
-      dsimp only at h ⊢
-      exact ⟨pr, t.time, by rw [h]⟩
-    · rw [hu] at h
-      dsimp only at h ⊢
-      exact ⟨pr, c, h⟩
+  · rw [if_pos (Or.inr (by rw [h1]; simp)), h1]
+    exact ⟨P.price, c, rfl⟩
+  · rw [if_neg (by rw [h1]; simp [h0]), h1]
+    exact ⟨t.price, t.time, rfl⟩
+
+/-- the fills of `fs` that `transact` accepted (returned no error for) when applied left to right
+starting from `P`; a refused fill is skipped — it left the accumulators untouched. -/
+def accepted (P : Position α) : List (Txn α) → List (Txn α)
+  | [] => []
+  | t :: ts =>
+    if (P.transact t).2.isNone then t :: accepted (P.transact t).1 ts
+    else accepted (P.transact t).1 ts
+
+@[simp] theorem accepted_nil (P : Position α) : accepted P [] = [] := rfl
+
+theorem accepted_cons_ok (P : Position α) (t : Txn α) (ts : List (Txn α)) (h : (P.transact t).2 = none) :
+    accepted P (t :: ts) = t :: accepted (P.transact t).1 ts := by
+  simp [accepted, h]
+
+theorem accepted_cons_err (P : Position α) (t : Txn α) (ts : List (Txn α)) (e : Err)
+    (h : (P.transact t).2 = some e) :
+    accepted P (t :: ts) = accepted (P.transact t).1 ts := by
+  simp [accepted, h]
+
+/-- the accepted fills are a sublist of the fills -/
+theorem accepted_sublist (P : Position α) (fs : List (Txn α)) : (accepted P fs).Sublist fs := by
+  induction fs generalizing P with
+  | nil => simp
+  | cons t ts ih =>
+    unfold accepted
+    split
+    · exact (ih _).cons_cons t
+    · exact (ih _).cons t
+
+/-- if no call of the run returns an error, every fill is accepted -/
+theorem accepted_eq_self (P : Position α) (fs : List (Txn α))
+    (h : ∀ pre t post, fs = pre ++ t :: post → ((P.applyFills pre).transact t).2 = none) :
+    accepted P fs = fs := by
+  induction fs generalizing P with
+  | nil => rfl
+  | cons t ts ih =>
+    have h0 : (P.transact t).2 = none := h [] t ts rfl
+    rw [accepted_cons_ok P t ts h0, ih]
+    intro pre u post e
+    have := h (t :: pre) u post (by rw [e]; rfl)
+    simpa using this
 
 end Position
 
@@ -292,15 +383,29 @@ theorem inv_transactSell {P : Position α} {fs : List (Txn α)} (h : Inv P fs) (
   · simp only [ofInt_eq, Int.cast_neg]; positivity
   · simp only [ofInt_eq, Int.cast_neg]; intro h0; exact absurd h0 hne
 
-/-- one `transact` step preserves the invariant (whatever its error component) -/
-theorem inv_transact {P : Position α} {fs : List (Txn α)} (h : Inv P fs) (t : Txn α) (hq : t.qty ≠ 0) :
-    Inv (P.transact t).1 (fs ++ [t]) := by
-  obtain ⟨pr, c, e⟩ := Position.transact_fst P t
-  rw [e, if_neg hq]
+/-- an accepted `transact` step extends the invariant by the fill -/
+theorem inv_transact_ok {P : Position α} {fs : List (Txn α)} (h : Inv P fs) (t : Txn α) (hq : t.qty ≠ 0)
+    (hok : (P.transact t).2 = none) : Inv (P.transact t).1 (fs ++ [t]) := by
+  rw [Position.transact_accepted P t hq hok]
   apply Inv.set_price_clock
   rcases lt_or_gt_of_ne hq with hn | hp
   · rw [if_neg (by omega)]; exact inv_transactSell h t hn
   · rw [if_pos hp]; exact inv_transactBuy h t hp
+
+/-- a refused `transact` step keeps the invariant for the *same* fills: the refused fill is not
+counted, because validation comes before the accumulators are touched -/
+theorem inv_transact_err {P : Position α} {fs : List (Txn α)} (h : Inv P fs) (t : Txn α) (e : Err)
+    (herr : (P.transact t).2 = some e) : Inv (P.transact t).1 fs := by
+  obtain ⟨c, hc⟩ := Position.transact_refused P t e herr
+  rw [hc]
+  exact h.set_price_clock P.price c
+
+/-- one `transact` step preserves the invariant, the fill being counted iff it was accepted -/
+theorem inv_transact {P : Position α} {fs : List (Txn α)} (h : Inv P fs) (t : Txn α) (hq : t.qty ≠ 0) :
+    Inv (P.transact t).1 (fs ++ Position.accepted P [t]) := by
+  rcases hr : (P.transact t).2 with _ | e
+  · rw [Position.accepted_cons_ok P t [] hr]; exact inv_transact_ok h t hq hr
+  · rw [Position.accepted_cons_err P t [] e hr]; simpa using inv_transact_err h t e hr
 
 theorem inv_updatePrice {P : Position α} {fs : List (Txn α)} (h : Inv P fs) (p : α) (t : Int) :
     Inv (P.updatePrice p t).1 fs := by
@@ -308,13 +413,18 @@ theorem inv_updatePrice {P : Position α} {fs : List (Txn α)} (h : Inv P fs) (p
   rw [e]; exact h.set_price_clock pr c
 
 theorem inv_applyFills {P : Position α} {done : List (Txn α)} (h : Inv P done) (fs : List (Txn α))
-    (hq : ∀ t ∈ fs, t.qty ≠ 0) : Inv (P.applyFills fs) (done ++ fs) := by
+    (hq : ∀ t ∈ fs, t.qty ≠ 0) : Inv (P.applyFills fs) (done ++ Position.accepted P fs) := by
   induction fs generalizing P done with
   | nil => simpa using h
   | cons t ts ih =>
-    have := ih (inv_transact h t (hq t (List.mem_cons_self ..)))
-      (fun u hu => hq u (List.mem_cons_of_mem _ hu))
-    simpa [List.append_assoc] using this
+    have hq' : ∀ u ∈ ts, u.qty ≠ 0 := fun u hu => hq u (List.mem_cons_of_mem _ hu)
+    rw [Position.applyFills_cons]
+    rcases hr : (P.transact t).2 with _ | e
+    · rw [Position.accepted_cons_ok P t ts hr]
+      have := ih (inv_transact_ok h t (hq t (List.mem_cons_self ..)) hr) hq'
+      simpa [List.append_assoc] using this
+    · rw [Position.accepted_cons_err P t ts e hr]
+      exact ih (inv_transact_err h t e hr) hq'
 
 theorem inv_applyMarks {P : Position α} {done : List (Txn α)} (h : Inv P done) (ms : List (α × Int)) :
     Inv (P.applyMarks ms) done := by
@@ -322,9 +432,11 @@ theorem inv_applyMarks {P : Position α} {done : List (Txn α)} (h : Inv P done)
   | nil => simpa using h
   | cons m ms ih => exact ih (inv_updatePrice h m.1 m.2)
 
-/-- every position reached from fills with non-zero quantities satisfies the invariant -/
+/-- every position reached from fills with non-zero quantities satisfies the invariant for the opening
+fill followed by the accepted later fills -/
 theorem inv_reached (f : Txn α) (fs : List (Txn α)) (ms : List (α × Int))
-    (hq : ∀ t ∈ f :: fs, t.qty ≠ 0) : Inv (Position.reached f fs ms) (f :: fs) := by
+    (hq : ∀ t ∈ f :: fs, t.qty ≠ 0) :
+    Inv (Position.reached f fs ms) (f :: Position.accepted (Position.openFrom f) fs) := by
   unfold Position.reached
   apply inv_applyMarks
   have := inv_applyFills (inv_openFrom f (hq f (List.mem_cons_self ..))) fs
@@ -392,20 +504,23 @@ theorem transactSell_clock (P : Position α) (q p c : α) : (P.transactSell q p 
 theorem transact_noerr (P : Position α) (t : Txn α) (hc : P.clock ≤ t.time) (hq : t.qty ≠ 0)
     (hp : 0 < t.price) :
     (P.transact t).2 = none ∧ (P.transact t).1.clock = t.time ∧ (P.transact t).1.price = t.price := by
-  unfold Position.transact
-  rw [if_neg hq]
-  dsimp only
-  generalize hQ : (if 0 < t.qty then P.transactBuy (ofInt t.qty) t.price t.commission
-      else P.transactSell (ofInt (-t.qty)) t.price t.commission) = Q
-  have hQc : Q.clock = P.clock := by
-    rw [← hQ]; split
-    · rfl
-    · rfl
-  obtain ⟨h1, h2, h3⟩ := updatePrice_noerr Q t.price t.time (by rw [hQc]; exact hc) hp
-  rcases hu : Q.updatePrice t.price t.time with ⟨Q2, _ | e⟩
-  · rw [hu] at h3
-    exact ⟨rfl, rfl, h3⟩
+  obtain ⟨h1, _, _⟩ := updatePrice_noerr P t.price t.time hc hp
+  rcases Position.updatePrice_cases P t.price t.time with ⟨c, hu⟩ | hu
   · rw [hu] at h1; cases h1
+  · unfold Position.transact
+    rw [if_neg hq, hu]
+    dsimp only
+    split <;> exact ⟨rfl, rfl, rfl⟩
+
+theorem updatePrice_clock_le (P : Position α) (p : α) (t u : Int) (hc : P.clock ≤ u) (ht : t ≤ u) :
+    (P.updatePrice p t).1.clock ≤ u := by
+  unfold Position.updatePrice
+  split
+  · exact hc
+  · dsimp only
+    split
+    · exact ht
+    · exact ht
 
 /-- the clock never runs ahead of a time that bounds the current clock and all applied fills -/
 theorem transact_clock_le (P : Position α) (t : Txn α) (u : Int) (hc : P.clock ≤ u) (ht : t.time ≤ u) :
@@ -413,24 +528,10 @@ theorem transact_clock_le (P : Position α) (t : Txn α) (u : Int) (hc : P.clock
   unfold Position.transact
   split
   · exact hc
-  · dsimp only
-    generalize hQ : (if 0 < t.qty then P.transactBuy (ofInt t.qty) t.price t.commission
-        else P.transactSell (ofInt (-t.qty)) t.price t.commission) = Q
-    have hQc : Q.clock = P.clock := by
-      rw [← hQ]; split
-      · rfl
-      · rfl
-    rcases hu : Q.updatePrice t.price t.time with ⟨Q2, _ | e⟩
+  · have h := updatePrice_clock_le P t.price t.time u hc ht
+    rcases hu : P.updatePrice t.price t.time with ⟨Q, _ | e⟩
     · exact ht
-    · dsimp only
-      have : Q2 = (Q.updatePrice t.price t.time).1 := by rw [hu]
-      rw [this]
-      unfold Position.updatePrice
-      split
-      · rw [hQc]; exact hc
-      · dsimp only; split
-        · exact ht
-        · exact ht
+    · rw [hu] at h; exact h
 
 theorem applyFills_clock_le (P : Position α) (fs : List (Txn α)) (u : Int) (hc : P.clock ≤ u)
     (ht : ∀ t ∈ fs, t.time ≤ u) : (P.applyFills fs).clock ≤ u := by
